@@ -291,7 +291,13 @@ public:
 	{
 		if (!_sz)
 		{
-			_arr = new T[_rsz];
+			if (!_arr || !_rsz)	// allocation was deferred, or nothing was reserved; otherwise reuse the array (clear() keeps it)
+			{
+				delete[] _arr;
+				if (!_rsz)
+					_rsz = 1;
+				_arr = new T[_rsz];
+			}
 			memcpy(_arr, what, sizeof(T));
 			++_sz;
 			return result(_arr, true);
